@@ -83,7 +83,10 @@ def reference_comment(locations, path, indent):
             for line in reference_text(detached, leading, trailing)
         ]
         if lines and lines[-1][-1:] == '"':
-            lines[-1] = lines[-1][:-1] + '\\"'
+            # (reference copy updated with the repository's fix a809662: a quote already escaped is left alone)
+            body = lines[-1][:-1]
+            if (len(body) - len(body.rstrip("\\"))) % 2 == 0:
+                lines[-1] = body + '\\"'
         if len(lines) == 1 and len(lines[0]) + indent + 6 < 79:
             return pad + '"""' + lines[0] + '"""'
         body = "".join(pad + line + "\n" for line in lines) if lines else pad + "\n"
